@@ -288,3 +288,59 @@ def strict_stage(rep, tier, seed, focus, n=None):
                                           "events": sum(len(t["ev"]) for t in traces), "drift": drift,
                                           "negative_control": "one flipped queue entry: rejected"}
     return drift
+
+
+def trigger_items(tier):
+    """(algorithm, arity, parameters, window) instances for the trigger-sufficiency lemma (spec/Triggers.tla)."""
+    import itertools
+    out = []
+
+    def add(alg, n, params, lo, hi):
+        out.append({"rid": len(out), "alg": alg, "n": n, "params": list(params), "lo": lo, "hi": hi})
+
+    for alg in ("affine_eq", "affine_geq", "affine_leq"):
+        for cs in itertools.product((-2, -1, 0, 1, 2), repeat=2):
+            for k in (-1, 0, 1, 2):
+                add(alg, 2, list(cs) + [k], 0, 2)
+        for cs in ((1, 1, 1), (1, -1, 1), (2, -1, 0), (1, 0, -1), (-1, -1, -1)):
+            for k in (0, 1, 2):
+                add(alg, 3, list(cs) + [k], 0, 1 if tier == "quick" else 2)
+    for n in (2, 3):
+        add("alldifferent", n, [], 0, 2)
+        add("and", n, [], 0, 1)
+        for a in (0, 1):
+            add("count_eq", n, [a], 0, 2 if n == 2 else 1)
+        add("lexicographic_leq", 2, [], 0, 2)
+        for alg in ("max_eq", "max_leq", "min_eq", "min_geq"):
+            add(alg, n, [], 0, 2 if n == 2 else 1)
+        for c in (0, 1, 2):
+            add("exactly_eq", n, [1, c], 0, 2 if n == 2 else 1)
+            add("exactly_true", n, [c], 0, 1)
+        add("element_lic", n, [1], 0, 2 if n == 2 else 1)
+    add("lexicographic_leq", 4, [], 0, 1)
+    add("element_liv", 3, [], 0, 2)
+    for lst in ((0, 2, 1), (1, 1), (2, 0, 0, 1)):
+        add("element_iv", 2, lst, -1, 2)
+    for tab in ((0, 1, 1, 2, 2, 0), (1, 1), (0, 0, 2, 2)):
+        add("relation", 2, tab, 0, 2)
+    for caps in ((0, 0, 0, 1, 1, 2), (1, 0, 0, 2, 2, 2), (0, 0, 0, 2, 2, 2)):
+        add("gcc", 2, [0] + list(caps), 0, 2)
+        add("gcc", 3, [0] + list(caps), 0, 2 if tier == "thorough" else 1)
+    return out
+
+
+def trigger_stage(rep, tier, seed):
+    items = trigger_items(tier)
+    with Scratch("trig") as tmp:
+        outs = run_workers("rec_triggers.py", [{"items": items}], nucs_env(jit=False), tmp, timeout=600)
+        recs = list(read_ndjson(outs))
+        verdicts, judged, st, tr = validate_shards("Triggers", "Triggers.cfg", "TRIGGER_RECS", recs, tmp)
+    for rid, clause in verdicts:
+        r = recs[rid]
+        rep.fail({"alg": r["alg"], "n": r["n"], "params": r["params"], "masks": r["masks"], "clause": clause},
+                 f"{clause}: {r['alg']} arity {r['n']} params {r['params']} declares masks {r['masks']}, but an unwatched "
+                 f"bound change inside the window [{r['lo']},{r['hi']}] makes it fail or prune")
+    rep.add(states=st, transitions=tr)
+    rep.cov["trigger_sufficiency_lemma"] = {"spec": "spec/Triggers.tla", "instances": len(recs),
+                                            "algorithms": sorted({r["alg"] for r in recs}),
+                                            "sample": {k: recs[0][k] for k in ("alg", "n", "params", "masks")}}
